@@ -423,7 +423,14 @@ def _opt_case(res, rng, ident):
                 if b_ in "ACGT" and p_ not in counts:
                     alt_ = rng.choice([x for x in "ACGT" if x != b_])
                     counts[p_] = {"_": depth * len(pert) - depth, f"{b_}>{alt_}": depth}
-    cov = tables.make_coverage(g, counts, profile=prof, phases=phases)
+    indel_table = None
+    if rng.random() < 0.3:
+        counts, indel_table = tables.split_indel_table(g, counts, rng)
+        indel_table = indel_table or None
+    cov = tables.make_coverage(g, counts, profile=prof, phases=phases, indels=indel_table)
+    if indel_table and any(sum(v) != sum(n for o, n in counts.get(k[0], {}).items() if o[:3] != "ins")
+                           for k, v in indel_table.items()):
+        stressed = True  # rounding makes the evidence not exactly noise-free
     cn = CNSolution(g, 0, tables.cn_list(g, copies))
     majors = collections.Counter(c[0] for c in copies)
     major = MajorSolution(0, collections.Counter({SolvedAllele(g, m): c for m, c in majors.items()}),
